@@ -111,6 +111,9 @@ func runC11(e *core.Env) {
 		h := w.Host(name)
 		if !o.TLS {
 			h.TLS = config.TLSDisabled
+		} else if e.Choose("gen", 3, "tlsinsecure") == 2 {
+			// TLS without certificate verification is still TLS: nothing may travel in clear text
+			h.TLS = config.TLSInsecure
 		}
 		h.RepoAuth = e.Choose("gen", 3, "repoauth") == 2
 		user, pass, ident := "user-"+name+"-Uq7", "pass-"+name+"-Zx9!w", "ident-"+name+"-Tk3"
